@@ -97,6 +97,22 @@ def split_script(ws):
     return ws[:i], [int(x) for x in ws[i + 1:]]
 
 
+def parse_ix(tok):
+    """`I<int>` -> int, `S<start>/<stop>/<step>` (with `_` = None) -> slice"""
+    if tok[0] == "I":
+        return int(tok[1:])
+    assert tok[0] == "S"
+    a, b, c = (None if t == "_" else int(t) for t in tok[1:].split("/"))
+    return slice(a, b, c)
+
+
+def fmt_ix(ix):
+    if isinstance(ix, int):
+        return f"I{ix}"
+    f = lambda v: "_" if v is None else str(v)  # noqa: E731
+    return f"S{f(ix.start)}/{f(ix.stop)}/{f(ix.step)}"
+
+
 def pairs(xs):
     xs = [int(x) for x in xs]
     assert len(xs) % 2 == 0
@@ -220,6 +236,25 @@ class GridImpl:
             return "ok " + fmt_cell(v), v
         if k == "dump":
             return self.fmt_dump(self.snap()), None
+        if k == "geti":
+            v = [self.ids(c) for c in g[int(w[1])]]
+            return sp(" ".join(fmt_cell(c) for c in v)), v
+        if k == "getl":
+            ps = pairs(w[2:])
+            assert len(ps) == int(w[1])
+            v = [self.ids(c) for c in g[tuple(ps)]]
+            return sp(" ".join(fmt_cell(c) for c in v)), v
+        if k == "gets":
+            ix, iy = parse_ix(w[1]), parse_ix(w[2])
+            r = g[ix, iy]
+            v = [self.ids(r)] if isinstance(ix, int) and isinstance(iy, int) else [self.ids(c) for c in r]
+            return sp(" ".join(fmt_cell(c) for c in v)), v
+        if k == "tadj":
+            x, y = g.torus_adj((int(w[1]), int(w[2])))
+            return f"ok {int(x)},{int(y)}", (int(x), int(y))
+        if k == "oob":
+            v = bool(g.out_of_bounds((int(w[1]), int(w[2]))))
+            return f"ok {int(v)}", v
         if k in ("nbhd", "inbhd", "nbrs", "inbrs", "nmask"):
             pos, moore, ic, r = (int(w[1]), int(w[2])), w[3] == "1", w[4] == "1", int(w[5])
             if k == "nbhd":
@@ -417,6 +452,73 @@ def mte_script(R, impl):
     return [] if R.random() < 0.08 else [R.randrange(1000)]
 
 
+def any_int(R, n):
+    """an index for a list of length n: mostly in range, also negative aliases and beyond"""
+    k = R.random()
+    if k < 0.5:
+        return R.randrange(n)
+    if k < 0.8:
+        return R.randint(-n - 2, n + 1)
+    return R.randint(-3 * n - 1, 3 * n + 1)
+
+
+def any_slice(R, n):
+    b = lambda: None if R.random() < 0.35 else R.randint(-n - 2, n + 2)  # noqa: E731
+    st = R.choice([None, None, None, 1, 1, 2, 3, -1, -1, -2, 0])
+    return slice(b(), b(), st)
+
+
+def gen_index_read(R, w, h):
+    """one read through the indexing / raw-coordinate paths: arbitrary ints (Python aliasing), slices, position tuples"""
+    k = R.random()
+    if k < 0.2:
+        return f"isempty {any_int(R, w)} {any_int(R, h)}"
+    if k < 0.3:
+        return f"geti {any_int(R, w)}"
+    if k < 0.45:
+        ps = [any_coord(R, w, h) if R.random() < 0.3 else (R.randrange(w), R.randrange(h)) for _ in range(R.choice([0, 1, 1, 2, 3]))]
+        return f"getl {len(ps)} " + " ".join(f"{x} {y}" for x, y in ps)
+    if k < 0.85:
+        m = R.random()
+        ix = any_slice(R, w) if m < 0.7 else any_int(R, w)
+        iy = any_slice(R, h) if (m < 0.4 or m >= 0.7) else any_int(R, h)
+        return f"gets {fmt_ix(ix)} {fmt_ix(iy)}"
+    if k < 0.93:
+        x, y = any_coord(R, w, h)
+        return f"tadj {x} {y}"
+    x, y = any_coord(R, w, h)
+    return f"oob {x} {y}"
+
+
+def exhaustive_index_c08():
+    """every slice with bounds in None / -n-1 .. n+1 and steps None, ±1, ±2, 3, 0 on both axes of small grids (the other
+    component a fixed int), every int index -2n .. 2n for grid[x] / is_cell_empty, on a bounded MultiGrid and a toroidal SingleGrid"""
+    out = []
+    for kind, w, h, torus in (("multi", 3, 2, False), ("single", 2, 4, True), ("hexsingle", 1, 3, False)):
+        lines = [grid_header(kind, w, h, torus, False, 3)]
+        lines += ["place 0 0 0", f"place 1 {w - 1} {h - 1}", f"place 2 {w - 1} {h - 1}" if kind == "multi" else f"place 2 0 {h - 1}"]
+        for axis, n in (("x", w), ("y", h)):
+            bounds = [None] + list(range(-n - 1, n + 2))
+            for a in bounds:
+                for b_ in bounds:
+                    for st in (None, 1, 2, 3, -1, -2, 0):
+                        sl = fmt_ix(slice(a, b_, st))
+                        lines.append(f"gets {sl} I0" if axis == "x" else f"gets I0 {sl}")
+            for a in (None, 0, 1, -1):
+                for st in (None, -1, 2, 0):
+                    lines.append(f"gets {fmt_ix(slice(a, None, st))} {fmt_ix(slice(None, a, st))}")
+                    lines.append(f"gets {fmt_ix(slice(1, 1, None))} {fmt_ix(slice(a, None, st))}")
+        for x in range(-2 * w - 1, 2 * w + 2):
+            lines.append(f"geti {x}")
+            for y in range(-2 * h - 1, 2 * h + 2):
+                lines.append(f"isempty {x} {y}")
+                lines.append(f"clc 1 {x} {y}")
+            lines.append(f"gets I{x} S_/_/_")
+            lines.append(f"gets S_/_/_ I{x}")
+        out.append(core.Scenario(lines, {"exhaustive": True}))
+    return out
+
+
 def gen_c08(R, tier, rejecting=False):
     kind = R.choice(KINDS)
     m = R.random()
@@ -560,8 +662,10 @@ def gen_c08(R, tier, rejecting=False):
                 b.add("empties")
             elif j < 0.3:
                 b.add("exists")
-            elif j < 0.45:
+            elif j < 0.40:
                 b.add(f"isempty {R.randrange(w)} {R.randrange(h)}")
+            elif j < 0.45:
+                b.add(gen_index_read(R, w, h))
             elif j < 0.58:
                 b.add("mask")
             elif j < 0.7:
@@ -686,7 +790,8 @@ def gen_c09_grid(R, tier):
             b.add(f"{op} {x} {y} {int(moore)} {int(ic)} {r}")
         if R.random() < 0.12:
             n = R.choice([0, 1, 2, 3, 5])
-            cs = [(R.randrange(w), R.randrange(h)) for _ in range(n)]
+            raw = R.random() < 0.2  # arbitrary integers: Python aliasing of -size..-1, IndexError beyond
+            cs = [(any_int(R, w), any_int(R, h)) if raw else (R.randrange(w), R.randrange(h)) for _ in range(n)]
             b.add(f"{R.choice(['clc', 'iclc'])} {n} " + " ".join(f"{x} {y}" for x, y in cs))
     return b.scenario()
 
@@ -921,7 +1026,7 @@ def oracle_c08(sc, obs):
         elif k == "exists" and res.startswith("ok"):
             if e["val"] != bool(empties_now):
                 bad.append(f"exists: {where}: exists_empty_cells() = {e['val']}, empty cells are {empties_now}")
-        elif k == "isempty" and res.startswith("ok"):
+        elif k == "isempty" and res.startswith("ok") and ing((int(op[1]), int(op[2]))):
             c = (int(op[1]), int(op[2]))
             if e["val"] != (not Bc[c]):
                 bad.append(f"isempty: {where}: is_cell_empty = {e['val']}, cell holds {Bc[c]}")
@@ -945,6 +1050,61 @@ def oracle_c08(sc, obs):
                     bad.append(f"get-wrap: {where}: grid[{p}] gave {res}, cell {wrap(p)} holds {want}")
             elif res != "err OutOfBounds":
                 bad.append(f"get-reject: {where}: grid[{p}] on a bounded grid gave {res}")
+        elif k == "geti" and res.startswith("ok") and 0 <= int(op[1]) < w:
+            want = [Bc[(int(op[1]), y)] for y in range(h)]
+            if [tuple(x) for x in e["val"]] != want:
+                bad.append(f"index: {where}: grid[{op[1]}] shows {e['val']}, the column holds {want}")
+        elif k == "getl" and len(op) > 2:
+            ps = pairs(op[2:])
+            if all(ing(p) or torus for p in ps):
+                want = [Bc[wrap(p)] for p in ps]
+                if not res.startswith("ok") or [tuple(x) for x in e["val"]] != want:
+                    bad.append(f"index: {where}: grid[{ps}] gave {res}, those cells hold {want}")
+            elif res != "err OutOfBounds":
+                bad.append(f"get-reject: {where}: a position outside a bounded grid gave {res}")
+        elif k == "gets":
+            # reference: Python's own list slicing applied to the nested lists of cell contents (ints wrap / reject like grid[x, y])
+            ix, iy = parse_ix(op[1]), parse_ix(op[2])
+            ref = [[Bc[(x, y)] for y in range(h)] for x in range(w)]
+            want, rej = None, False
+            try:
+                if isinstance(ix, int) and isinstance(iy, int):
+                    if ing((ix, iy)) or torus:
+                        want = [Bc[wrap((ix, iy))]]
+                    else:
+                        rej = True
+                elif isinstance(ix, int):
+                    if 0 <= ix < w or torus:
+                        want = list(ref[ix % w][iy])
+                    else:
+                        rej = True
+                elif isinstance(iy, int):
+                    if 0 <= iy < h or torus:
+                        want = [col[iy % h] for col in ref[ix]]
+                    else:
+                        rej = True
+                else:
+                    want = [c for col in ref[ix] for c in col[iy]]
+            except ValueError:
+                want = "err Value"
+            if rej:
+                if res != "err OutOfBounds":
+                    bad.append(f"get-reject: {where}: an int index outside a bounded grid gave {res}")
+            elif want == "err Value":
+                if res != "err Value":
+                    bad.append(f"index: {where}: a zero slice step gave {res}")
+            elif not res.startswith("ok") or [tuple(x) for x in e["val"]] != want:
+                bad.append(f"index: {where}: gave {res}, Python slicing of the contents gives {want}")
+        elif k == "tadj":
+            p = (int(op[1]), int(op[2]))
+            if ing(p) or torus:
+                if not res.startswith("ok") or tuple(e["val"]) != wrap(p):
+                    bad.append(f"torus-adj: {where}: gave {res}, expected {wrap(p)}")
+            elif res != "err OutOfBounds":
+                bad.append(f"torus-adj: {where}: outside a bounded grid gave {res}")
+        elif k == "oob" and res.startswith("ok"):
+            if e["val"] != (not ing((int(op[1]), int(op[2])))):
+                bad.append(f"oob: {where}: out_of_bounds gave {e['val']}")
         if not mutator:
             continue
         a = int(op[1])
@@ -1148,10 +1308,11 @@ def oracle_c09(sc, obs):
             want = hex_ball(w, h, torus, pos, r)
             if not ic:
                 want.discard(pos)
-        elif k in ("clc", "iclc") and res.startswith("ok"):
-            wa = [a for c in pairs(op[2:]) for a in B["cells"][ck(c)]]
-            if e["val"] != wa:
-                bad.append(f"clc: {where}: got {e['val']}, agents in those cells are {wa}")
+        elif k in ("clc", "iclc"):
+            if all(ing(c) for c in pairs(op[2:])):  # in-grid coordinates: the property's clause; others: tie only
+                wa = [a for c in pairs(op[2:]) for a in B["cells"][ck(c)]]
+                if not res.startswith("ok") or e["val"] != wa:
+                    bad.append(f"clc: {where}: gave {res}, agents in those cells are {wa}")
             continue
         else:
             continue
